@@ -466,6 +466,35 @@ def more_queue_units():
 ALL.append(more_queue_units)
 
 
+def _has_pending_post(ctx):
+    """C10 duplicate guard: has_pending_message_for_task(t) is true exactly when the queue table holds SOME row whose payload
+    names task t -- whatever its lock, delay or attempt state (a row being handled right now, locked by a worker, still
+    counts: that is what stops the sweep from re-queuing a task whose message is in flight); read-only."""
+    I = ctx.I
+    if ctx.exc is not None:
+        return [("no-exception", FALSE)]
+    ent = entry_table(QT)
+    tid = ctx.args["task_id"].t
+    path = I.ops.lit("$.task_id").t
+    k = fresh_int("qrow")
+    names = lambda kk: z3.And(z3.Select(ent.exists, kk), z3.Not(SQL.json_extract_null(z3.Select(ent.col("payload"), kk), path)),
+                              SQL.json_extract(z3.Select(ent.col("payload"), kk), path) == tid)
+    res = I.ops.truthy(ctx.result)
+    return [("true-when-any-row-names-the-task", z3.Implies(names(k), res)),
+            ("false-when-no-row-names-the-task", z3.Implies(z3.Not(z3.Exists([k], names(k))), z3.Not(res))),
+            ("read-only", _frame(ctx, QT))]
+
+
+def pending_units():
+    reg = queue_registry()
+    return [Unit(prop="*", name="L1/SqliteQueue.has_pending_message_for_task", func=Q + "queue:SqliteQueue.has_pending_message_for_task",
+                 params=[("task_id", ("str",))], names=STATUS_NAMES, registry=reg, replayable=False, self_type=make_queue,
+                 obligations=[Obl("C10/pending-guard", _has_pending_post, when="any")])]
+
+
+ALL.append(pending_units)
+
+
 # ---- DLQ
 DLQ = QT + "_dlq"
 
